@@ -504,6 +504,10 @@ func normalizeStructInto(cfg *Config, opts *options, from reflect.Value) Error {
 
 		if tagOpts.squash {
 			vField := chaseValue(v.Field(i))
+			if k := vField.Kind(); (k == reflect.Ptr || k == reflect.Interface) && vField.IsNil() {
+				// a nil pointer or interface has nothing to inline, like a nil map
+				continue
+			}
 			switch vField.Kind() {
 			case reflect.Struct:
 				if c, ok := tryTConfig(vField); ok {
